@@ -78,7 +78,7 @@ class RawClient:
     async def leave(self, how):
         self.open = False
         with contextlib.suppress(Exception):
-            if how == "eof" and getattr(self, "hello", True):
+            if how == "abort" and getattr(self, "hello", True):
                 # an abrupt departure: a command is sent and the connection is torn down without
                 # reading the reply (TCP: reset; Unix: the server's write hits a closed peer)
                 await self.poll()
@@ -214,6 +214,7 @@ async def scenario(kind, labels, expected, clients_kind, repo_src):
         cli_args = ["tcp", "127.0.0.1", str(port)]
         opener = lambda: asyncio.open_connection("127.0.0.1", port)   # noqa: E731
     task = None
+    stop_requested = False
     clients, refused, lines, notes = [], 0, [], []
     start_dt = None
 
@@ -235,6 +236,7 @@ async def scenario(kind, labels, expected, clients_kind, repo_src):
             w = lab.split()
             if w[0] == "start":
                 if task is None or task.done():     # first start, or restart after a completed stop
+                    stop_requested = False
                     t0 = asyncio.get_running_loop().time()
                     task = await asyncio.wait_for(server.serve_forever(), STEP_TIMEOUT)
                     start_dt = asyncio.get_running_loop().time() - t0
@@ -293,14 +295,31 @@ async def scenario(kind, labels, expected, clients_kind, repo_src):
                     refused += 1
             elif w[0] == "send":
                 j = int(w[1])
-                if j < len(clients) and clients[j].open and getattr(clients[j], "hello", True):
+                if j < len(clients) and clients[j].open and getattr(clients[j], "hello", True) \
+                        and not getattr(clients[j], "waiting", False):
                     await clients[j].send("num-running")
+            elif w[0] == "sendwait":
+                # a command whose method waits: until-closed on a pool nobody closes - no reply
+                j = int(w[1])
+                if j < len(clients) and clients[j].open and getattr(clients[j], "hello", True) \
+                        and not getattr(clients[j], "waiting", False) and clients[j].kind == "raw":
+                    clients[j].waiting = True
+                    await clients[j].send("until-closed")
             elif w[0] == "leave":
                 j = int(w[1])
                 if j < len(clients) and clients[j].open:
                     await clients[j].leave("exit" if (i % 2 == 0) else "eof")
+            elif w[0] == "abort":
+                # the client vanishes with a connection reset (raw clients; a connection whose
+                # handshake was never sent is simply closed)
+                j = int(w[1])
+                if j < len(clients) and clients[j].open:
+                    await clients[j].leave("abort" if clients[j].kind == "raw" else "eof")
             elif w[0] == "stop":
-                if task is not None:
+                # one cancellation per run of the server (a second cancel() of a task that is
+                # already winding down would interrupt its wait for the remaining clients)
+                if task is not None and not task.done() and not stop_requested:
+                    stop_requested = True
                     task.cancel()
             # wait (bounded) for the predicted observation
             deadline = asyncio.get_running_loop().time() + STEP_TIMEOUT
